@@ -142,7 +142,7 @@ def main():
     # 2. regenerated fragments
     if hasattr(mod, "translate"):
         try:
-            with vlib.Lock("lake"):
+            with vlib.Lock("lake-" + pid):
                 mod.translate()
         except Broken as b:
             broken.append((b.what, b.detail))
@@ -152,12 +152,12 @@ def main():
     # 3. proofs + driver
     modules = list(mod.LEAN_MODULES)
     try:
-        vlib.lake_build(["driver_" + pid.lower()])
+        vlib.lake_build(["driver_" + pid.lower()], "lake-" + pid)
         driver = vlib.driver_path(pid)
     except Broken as b:
         broken.append(("driver:" + b.what, b.detail))
     try:
-        vlib.lake_build(modules)
+        vlib.lake_build(modules, "lake-" + pid)
         checker_cmds.append("lake build " + " ".join(modules))
     except Broken as b:
         broken.append((b.what, b.detail))
